@@ -4,6 +4,7 @@ Property theorems (helper lemmas live in RigModel/Lemmas/C04*.lean).
 -/
 import RigModel.Lemmas.C04
 import RigModel.Lemmas.C04Apply
+import RigModel.Lemmas.C04Top
 set_option linter.unusedSimpArgs false
 set_option linter.unusedVariables false
 
@@ -96,5 +97,276 @@ example :
   rcases hi with rfl | rfl
   · simp at he ho; subst he; subst ho; rfl
   · simp at ho
+
+/-! ## Ordered covering: refinement, the loop, the sort -/
+
+/-- **insertion index.** On a generality-sorted table `_get_insertion_index` (binary search +
+linear scan, with the empty-table repair) returns the first position whose generality is at
+least `g`; it lies within the table. -/
+theorem insertionIndex_correct (T : List Entry) (g : Nat) (hs : SortedGen T) :
+    insertionIndex T g ≤ T.length ∧ (∀ e ∈ T.take (insertionIndex T g), e.gen < g) ∧
+    (∀ e ∈ T.drop (insertionIndex T g), g ≤ e.gen) :=
+  ⟨insertionIndex_le T g, insertionIndex_spec T g hs⟩
+
+/-- **refine_ok.** On a generality-sorted table, whatever `_refine_merge` returns (down-check,
+up-check, down-check again) is a merge of a subset of the initial members, and if its goodness
+still exceeds `min_goodness` it passes the up-check and the down-check. -/
+theorem refine_ok (T : List Entry) (A : Aliases) (minG : Int) (hs : SortedGen T) (h0 : 0 ≤ minG)
+    (es : List Nat) (hv : ∀ i ∈ es, i < T.length) (m' : Merge)
+    (h : refineMerge T A (mkMerge T es) minG = some m') :
+    ∃ es', m' = mkMerge T es' ∧ (∀ i ∈ es', i ∈ es) ∧
+      (m'.goodness > minG → UpOk T m' ∧ DownOk T A m') :=
+  refineMerge_spec T A minG hs h0 es hv m' h
+
+/-- **orderedCovering_inv.** `ordered_covering` started on any table with an alias dictionary
+that satisfies the invariant for the sorted table (e.g. the empty one, or the one returned by a
+previous call) returns a generality-sorted table and dictionary that satisfy it again, never
+longer than the input. -/
+theorem orderedCovering_inv (T : List Entry) (target : Option Nat) (A : Aliases) (noRaise : Bool)
+    (T' : List Entry) (A' : Aliases) (hA : Inv (sortTable T) (sortTable T) A)
+    (h : orderedCovering T target A noRaise = .ok (T', A')) :
+    Inv (sortTable T) T' A' ∧ SortedGen T' ∧ T'.length ≤ T.length := by
+  simp only [orderedCovering] at h
+  split at h
+  · cases h
+  · rename_i r hr
+    have hr' : ocLoop (T.length + 2) (sortTable T) target A = .ok (r.1, r.2) := hr
+    have hspec := ocLoop_spec (sortTable T) _ _ target A hA (sortTable_sorted T) r.1 r.2 hr'
+    rw [sortTable_length] at hspec
+    split at h
+    · split at h
+      · cases h
+      · cases h; exact hspec
+    · cases h; exact hspec
+
+/-- **orderedCovering_equiv.** For a table that is orthogonal (in any order) or sorted by
+generality, the table returned by `ordered_covering` (any target, `no_raise` or not) routes every
+key matched by the input to the same route through a first-matching entry that lists the
+original's sources; it is not longer than the input. -/
+theorem orderedCovering_equiv (T : List Entry) (target : Option Nat) (noRaise : Bool)
+    (T' : List Entry) (A' : Aliases) (hg : Good T)
+    (h : orderedCovering T target [] noRaise = .ok (T', A')) :
+    RouteEquiv T T' ∧ T'.length ≤ T.length := by
+  obtain ⟨h1, _, h3⟩ := orderedCovering_inv T target [] noRaise T' A' (inv_init _) h
+  refine ⟨?_, h3⟩
+  intro k o ho
+  rw [← lookup_sortTable hg k] at ho
+  exact inv_routeEquiv _ _ _ h1 k o ho
+
+/-- **orderedCovering_target.** Without `no_raise`, a returned table meets the target; the only
+other outcomes are `MinimisationFailedError(target, n)` with `n > target` (and the model's
+out-of-fuel marker, never observed). -/
+theorem orderedCovering_target (T : List Entry) (t : Nat) (A : Aliases) :
+    (∃ r, orderedCovering T (some t) A false = .ok r ∧ r.1.length ≤ t) ∨
+    (∃ n, orderedCovering T (some t) A false = .error (.minFailed t n) ∧ t < n) ∨
+    orderedCovering T (some t) A false = .error .fuel := by
+  simp only [orderedCovering]
+  split
+  · rename_i e he
+    cases e with
+    | fuel => right; right; rfl
+    | minFailed a b =>
+      exfalso
+      have : ∀ fuel T A, ocLoop fuel T (some t) A ≠ .error (.minFailed a b) := by
+        intro fuel
+        induction fuel with
+        | zero => intro T A h; simp [ocLoop] at h
+        | succ fuel ih =>
+          intro T A h
+          simp only [ocLoop] at h
+          split at h
+          · split at h
+            · cases h
+            · split at h
+              · cases h
+              · exact ih _ _ h
+          · cases h
+      exact this _ _ _ he
+  · rename_i r hr
+    simp only [Bool.not_false, Bool.true_and, decide_eq_true_eq]
+    by_cases hl : r.1.length > t
+    · right; left; exact ⟨r.1.length, by rw [if_pos hl], hl⟩
+    · left; exact ⟨r, by rw [if_neg hl], by omega⟩
+
+/-- **minimise_equiv.** `ordered_covering.minimise` (ordered covering, then default-route
+removal): for an orthogonal or generality-sorted table whose entries all list at least one source
+(`{None}` = unknown counts), the result routes every matched key identically - by a first match
+with the same route listing the original's sources, or by default routing when the *original*
+entry went straight through from a single link - and is not longer than the input. -/
+theorem minimise_equiv (T : List Entry) (target : Option Nat) (T' : List Entry) (hg : Good T)
+    (hsrc : ∀ e ∈ T, e.sources ≠ 0) (h : ocMinimise T target = .ok T') :
+    RouteEquiv T T' ∧ T'.length ≤ T.length := by
+  simp only [ocMinimise] at h
+  split at h
+  · cases h
+  · rename_i r hr
+    obtain ⟨h1, _, h3⟩ := orderedCovering_inv T target [] true r.1 r.2 (inv_init _) hr
+    have hrd := removeDefault_equiv r.1 T' target h
+    have hlen := (removeDefault_length r.1 T' target true h).2
+    refine ⟨?_, by omega⟩
+    apply covers_then_equiv hsrc ?_ hrd
+    intro k o ho
+    rw [← lookup_sortTable hg k] at ho
+    obtain ⟨e, h4, h5, h6, _⟩ := h1 k o ho
+    exact ⟨e, h4, h5, h6⟩
+
+/-- every method of the chain preserves routes and does not lengthen the table -/
+theorem runMethod_equiv (f : Method) (T : List Entry) (target : Option Nat) (T' : List Entry)
+    (hg : Good T) (hsrc : ∀ e ∈ T, e.sources ≠ 0) (h : runMethod f T target = .ok T') :
+    RouteEquiv T T' ∧ T'.length ≤ T.length := by
+  cases f with
+  | identity =>
+    simp only [runMethod, identityMin] at h
+    split at h
+    · cases h; exact ⟨routeEquiv_refl _, Nat.le_refl _⟩
+    · split at h
+      · cases h; exact ⟨routeEquiv_refl _, Nat.le_refl _⟩
+      · cases h
+  | rd => exact ⟨removeDefault_equiv T T' target h, (removeDefault_length T T' target true h).2⟩
+  | oc => exact minimise_equiv T target T' hg hsrc h
+
+/-- a method that returns a table for a target meets the target -/
+theorem runMethod_target (f : Method) (T : List Entry) (t : Nat) (T' : List Entry)
+    (h : runMethod f T (some t) = .ok T') : T'.length ≤ t := by
+  cases f with
+  | identity =>
+    simp only [runMethod, identityMin] at h
+    split at h
+    · cases h; omega
+    · cases h
+  | rd =>
+    rcases removeDefault_target T t true with ⟨T2, h1, h2⟩ | ⟨n, h1, _⟩
+    · simp only [runMethod] at h; rw [h1] at h; cases h; exact h2
+    · simp only [runMethod] at h; rw [h1] at h; cases h
+  | oc =>
+    simp only [runMethod, ocMinimise] at h
+    split at h
+    · cases h
+    · rename_i r _
+      rcases removeDefault_target r.1 t true with ⟨T2, h1, h2⟩ | ⟨n, h1, _⟩
+      · rw [h1] at h; cases h; exact h2
+      · rw [h1] at h; cases h
+
+/-- **minimiseTable_equiv.** `minimise_table` with any list of methods (the identity is always
+tried first): a returned table comes from one of the methods, hence routes every matched key
+identically and is not longer than the input; with a target it meets the target. -/
+theorem minimiseTable_equiv (T : List Entry) (target : Option Nat) (methods : List Method)
+    (T' : List Entry) (hg : Good T) (hsrc : ∀ e ∈ T, e.sources ≠ 0)
+    (h : minimiseTable T target methods = .ok T') :
+    RouteEquiv T T' ∧ T'.length ≤ T.length ∧ (∀ t, target = some t → T'.length ≤ t) := by
+  have key : ∃ f, runMethod f T target = .ok T' := by
+    simp only [minimiseTable] at h
+    split at h
+    · rename_i t
+      generalize (Method.identity :: methods) = ms at h
+      generalize T.length = best at h
+      induction ms generalizing best with
+      | nil => simp [tryLoop] at h
+      | cons f rest ih =>
+        simp only [tryLoop] at h
+        split at h
+        · rename_i r hr; cases h; exact ⟨f, hr⟩
+        · exact ih _ h
+        · cases h
+    · have gen : ∀ (ms : List Method) (best : Option (List Entry)),
+          (∀ b, best = some b → ∃ f, runMethod f T none = .ok b) →
+          minLoop T ms best = .ok T' → (best = none → ms ≠ []) → ∃ f, runMethod f T none = .ok T' := by
+        intro ms
+        induction ms with
+        | nil =>
+          intro best hb h hne
+          cases best with
+          | none => exact absurd rfl (hne rfl)
+          | some b => simp only [minLoop] at h; cases h; exact hb _ rfl
+        | cons f rest ih =>
+          intro best hb h _
+          simp only [minLoop] at h
+          split at h
+          · cases h
+          · rename_i r hr
+            split at h
+            · exact ih (some r) (fun b hb' => by cases hb'; exact ⟨f, hr⟩) h (by simp)
+            · rename_i b
+              refine ih _ ?_ h (by simp)
+              intro b' hb'
+              simp only [Option.some.injEq] at hb'
+              split at hb'
+              · subst hb'; exact ⟨f, hr⟩
+              · subst hb'; exact hb _ rfl
+      exact gen _ none (by simp) h (by simp)
+  obtain ⟨f, hf⟩ := key
+  obtain ⟨h1, h2⟩ := runMethod_equiv f T target T' hg hsrc hf
+  refine ⟨h1, h2, ?_⟩
+  intro t ht; subst ht
+  exact runMethod_target f T t T' hf
+
+/-- **minimiseTable_failure.** With a target, the only error of the front end is
+`MinimisationFailedError` carrying that target (or the model's out-of-fuel marker). -/
+theorem minimiseTable_failure (T : List Entry) (t : Nat) (methods : List Method) (e : Err)
+    (h : minimiseTable T (some t) methods = .error e) : (∃ best, e = .minFailed t best) ∨ e = .fuel := by
+  simp only [minimiseTable] at h
+  generalize (Method.identity :: methods) = ms at h
+  generalize T.length = best at h
+  induction ms generalizing best with
+  | nil => simp only [tryLoop] at h; cases h; exact Or.inl ⟨_, rfl⟩
+  | cons f rest ih =>
+    simp only [tryLoop] at h
+    split at h
+    · cases h
+    · exact ih _ h
+    · rename_i e' hne _
+      cases h
+      cases e with
+      | fuel => exact Or.inr rfl
+      | minFailed a b => exact absurd rfl (hne a b)
+
+/-- **minimiseTables_equiv.** `minimise_tables`: every chip's table is minimised by
+`minimise_table` with that chip's target; the result holds exactly the non-empty results (an
+empty result means every matched key is default-routed, and the chip gets no table). -/
+theorem minimiseTables_equiv (chips : List (Nat × List Entry × Option Nat)) (methods : List Method)
+    (out : List (Nat × List Entry)) (h : minimiseTables chips methods = .ok out) :
+    (∀ x ∈ chips, ∃ T', minimiseTable x.2.1 x.2.2 methods = .ok T' ∧ (T' = [] ∨ (x.1, T') ∈ out)) ∧
+    (∀ y ∈ out, y.2 ≠ [] ∧ ∃ x ∈ chips, x.1 = y.1 ∧ minimiseTable x.2.1 x.2.2 methods = .ok y.2) := by
+  induction chips generalizing out with
+  | nil => simp only [minimiseTables] at h; cases h; simp
+  | cons x rest ih =>
+    obtain ⟨chip, T, target⟩ := x
+    simp only [minimiseTables] at h
+    split at h
+    · cases h
+    · rename_i r hr
+      split at h
+      · cases h
+      · rename_i out' hout
+        obtain ⟨ih1, ih2⟩ := ih out' hout
+        cases h
+        constructor
+        · intro x hx
+          rcases List.mem_cons.mp hx with rfl | hx
+          · refine ⟨r, hr, ?_⟩
+            by_cases he : r.isEmpty = true
+            · left; simpa using he
+            · right; simp [he]
+          · obtain ⟨T', h1, h2⟩ := ih1 x hx
+            refine ⟨T', h1, h2.imp id ?_⟩
+            intro hm; split
+            · exact hm
+            · exact List.mem_cons_of_mem _ hm
+        · intro y hy
+          by_cases he : r.isEmpty = true
+          · rw [if_pos he] at hy
+            obtain ⟨h1, x, hx, h2⟩ := ih2 y hy
+            exact ⟨h1, x, List.mem_cons_of_mem _ hx, h2⟩
+          · rw [if_neg he] at hy
+            rcases List.mem_cons.mp hy with rfl | hy
+            · exact ⟨by simpa using he, (chip, T, target), by simp, rfl, hr⟩
+            · obtain ⟨h1, x, hx, h2⟩ := ih2 y hy
+              exact ⟨h1, x, List.mem_cons_of_mem _ hx, h2⟩
+
+/-- non-vacuity of the chain: an orthogonal table with known sources is minimised to one entry -/
+example :
+    let T : List Entry := [⟨4, 0#32, 0xf#32, 8⟩, ⟨4, 1#32, 0xf#32, 16⟩, ⟨4, 2#32, 0xf#32, 8⟩, ⟨4, 3#32, 0xf#32, 8⟩]
+    SortedGen T ∧ (∀ e ∈ T, e.sources ≠ 0) ∧ minimiseTable T none = .ok [⟨4, 0#32, 0xc#32, 24⟩] := by
+  refine ⟨by unfold SortedGen; decide, by decide, by rfl⟩
 
 end Rig.C04
